@@ -351,6 +351,68 @@ fn http(tr: &Tr, method: &str, path: &str, auth: Option<&[u8]>, body: Option<&[u
     (status, if chunked { dechunk(&body) } else { body })
 }
 
+/// Writes raw request bytes and reads whatever comes back (possibly nothing: a peer may close a
+/// connection it cannot parse). If nothing arrives within a short while (the server may be waiting
+/// for a body that is shorter than announced) the writing side is closed.
+fn http_raw(tr: &Tr, req: &[u8]) -> (u16, Vec<u8>) {
+    fn talk<S: Read + Write>(s: &mut S, req: &[u8], set_to: &dyn Fn(&S, u64), half_close: &dyn Fn(&S), buf: &mut Vec<u8>) {
+        if s.write_all(req).is_err() {
+            // the peer may already have answered and closed (e.g. header block too large)
+        }
+        set_to(s, 400);
+        let mut chunk = [0u8; 8192];
+        match s.read(&mut chunk) {
+            Ok(0) => return,
+            Ok(n) => buf.extend_from_slice(&chunk[..n]),
+            Err(_) => {
+                half_close(s);
+                set_to(s, 3000);
+            }
+        }
+        set_to(s, 10_000);
+        let _ = s.read_to_end(buf);
+    }
+    let mut buf = Vec::new();
+    match tr {
+        Tr::Unix(p) => {
+            if let Ok(mut s) = UnixStream::connect(p) {
+                talk(
+                    &mut s,
+                    req,
+                    &|s: &UnixStream, ms| {
+                        let _ = s.set_read_timeout(Some(Duration::from_millis(ms)));
+                    },
+                    &|s: &UnixStream| {
+                        let _ = s.shutdown(std::net::Shutdown::Write);
+                    },
+                    &mut buf,
+                );
+            }
+        }
+        Tr::Tcp(port) => {
+            if let Ok(mut s) = std::net::TcpStream::connect(("127.0.0.1", *port)) {
+                talk(
+                    &mut s,
+                    req,
+                    &|s: &std::net::TcpStream, ms| {
+                        let _ = s.set_read_timeout(Some(Duration::from_millis(ms)));
+                    },
+                    &|s: &std::net::TcpStream| {
+                        let _ = s.shutdown(std::net::Shutdown::Write);
+                    },
+                    &mut buf,
+                );
+            }
+        }
+    }
+    let status = if buf.starts_with(b"HTTP/1.") {
+        std::str::from_utf8(buf.get(9..12).unwrap_or(b"000")).ok().and_then(|s| s.parse().ok()).unwrap_or(0)
+    } else {
+        0
+    };
+    (status, buf)
+}
+
 // ------------------------------------------------------------------ configuration of a case
 
 #[derive(Clone, Debug, PartialEq)]
@@ -1891,6 +1953,148 @@ fn base_body(handler: &str) -> Option<&'static str> {
     })
 }
 
+
+/// Hostile values for a request header (raw bytes; no CR/LF/NUL, which would end the header).
+fn header_values(full: bool) -> Vec<(String, Vec<u8>)> {
+    let mut v: Vec<(String, Vec<u8>)> = vec![
+        ("empty".into(), Vec::new()),
+        ("sp".into(), b"   ".to_vec()),
+        ("ff".into(), vec![0xff]),
+        ("80".into(), vec![0x80, 0x80, 0x80]),
+        ("ctl".into(), vec![b'a', 0x01, 0x7f, b'\t', 0x1b, b'b']),
+        ("latin1".into(), vec![b'k', 0xe9, b'l']),
+        ("utf8".into(), "krill-é-€-𝔘".as_bytes().to_vec()),
+    ];
+    let lens: &[usize] = if full { &[255, 256, 257, 1000, 8192, 70000] } else { &[256, 8192] };
+    for n in lens {
+        v.push((format!("a{n}"), vec![b'a'; *n]));
+    }
+    let cuts: &[usize] = if full { &[63, 64, 127, 128, 255, 256, 257, 511, 512, 1023, 1024, 4095, 4096] } else { &[256] };
+    for c in cuts {
+        // a multi-byte character (or a lone byte that a lossy decoder turns into one) straddling byte `c`
+        for (tag, ch) in [("e9", "é".as_bytes().to_vec()), ("euro", "€".as_bytes().to_vec()), ("loneff", vec![0xff]), ("lone80", vec![0x80])] {
+            for back in [1usize, 2] {
+                if back == 2 && ch.len() < 3 && tag != "loneff" && tag != "lone80" {
+                    continue;
+                }
+                let mut b = vec![b'a'; c - back];
+                b.extend_from_slice(&ch);
+                b.extend_from_slice(&[b'b'; 12]);
+                v.push((format!("{tag}@{c}-{back}"), b));
+            }
+        }
+    }
+    v
+}
+
+fn gen_headerfuzz(seed: u64, tier: &str, rows: &[Row]) -> Vec<FuzzOp> {
+    let mut rng = Rng::new(seed ^ 0x1616);
+    let thorough = tier == "thorough";
+    let find = |pattern: &str, method: &str| rows.iter().find(|r| r.pattern == pattern && r.method == method).map(|r| r.idx).unwrap_or(0);
+    // (row, method, path, body)
+    let targets: Vec<(usize, &str, &str, &str)> = vec![
+        (find("/rfc6492/{ca}", "POST"), "POST", "/rfc6492/ca1", "x"),
+        (find("/rfc8181/{publisher}", "POST"), "POST", "/rfc8181/ca1", "x"),
+        (find("/api/v1/cas", "GET"), "GET", "/api/v1/cas", ""),
+        (find("/api/v1/authorized", "GET"), "GET", "/api/v1/authorized", ""),
+        (find("/api/v1/cas/{handle}/routes", "POST"), "POST", "/api/v1/cas/ca1/routes", r#"{"added":[],"removed":[]}"#),
+        (find("/api/v1/cas/{handle}/sync/repo", "POST"), "POST", "/api/v1/cas/ca2/sync/repo", ""),
+        (find("/auth/login", "POST"), "POST", "/auth/login", ""),
+        (find("/auth/login", "GET"), "GET", "/auth/login", ""),
+        (find("/auth/logout", "POST"), "POST", "/auth/logout", ""),
+        (find("/testbed/children", "POST"), "POST", "/testbed/children", "{}"),
+        (find("/testbed/enabled", "GET"), "GET", "/testbed/enabled", ""),
+        (find("/rrdp/**", "GET"), "GET", "/rrdp/notification.xml", ""),
+        (find("/ta/ta.tal", "GET"), "GET", "/ta/ta.tal", ""),
+        (find("/stats/info", "GET"), "GET", "/stats/info", ""),
+        (find("/health", "GET"), "GET", "/health", ""),
+        (find("/metrics", "GET"), "GET", "/metrics", ""),
+        (find("/ui/**", "GET"), "GET", "/ui/login", ""),
+    ];
+    let full = header_values(true);
+    let short = header_values(false);
+    let mut ops = Vec::new();
+    let mut group = 100_000;
+    let mut push = |group: usize, t: &(usize, &str, &str, &str), label: String, hdr: Vec<u8>, body: Option<&[u8]>, nocl: bool| {
+        let b = body.map(|b| b.to_vec()).unwrap_or_else(|| t.3.as_bytes().to_vec());
+        ops.push(FuzzOp {
+            group,
+            line: format!(
+                "fuzz {} {} path={} what=hdr:{label} hdr={} body={}{}",
+                t.0, t.1, t.2,
+                if hdr.is_empty() { "-".to_string() } else { hex::encode(&hdr) },
+                if b.is_empty() { "-".to_string() } else { hex::encode(&b) },
+                if nocl { " nocl=1" } else { "" }
+            ),
+        });
+    };
+    let line = |name: &str, val: &[u8]| -> Vec<u8> {
+        let mut l = format!("{name}: ").into_bytes();
+        l.extend_from_slice(val);
+        l.extend_from_slice(b"\r\n");
+        l
+    };
+    for t in &targets {
+        for (name, values) in [("User-Agent", &full), ("Authorization", &full), ("Content-Type", &short), ("Cookie", &short), ("Host", &short), ("Accept", &short), ("X-Forwarded-For", &short)] {
+            group += 1;
+            for (label, val) in values.iter() {
+                if !thorough && values.len() > 40 && !(label.contains("@256") || label.starts_with('a') || rng.chance(1, 3)) {
+                    continue;
+                }
+                push(group, t, format!("{name}:{label}"), line(name, val), None, false);
+                if name == "Authorization" {
+                    for scheme in ["Bearer ", "Basic "] {
+                        if thorough || label.contains("@256") || rng.chance(1, 4) {
+                            let mut v = scheme.as_bytes().to_vec();
+                            v.extend_from_slice(val);
+                            push(group, t, format!("{name}:{}{label}", scheme.trim()), line(name, &v), None, false);
+                        }
+                    }
+                }
+            }
+        }
+        // duplicated headers
+        group += 1;
+        for name in ["User-Agent", "Authorization", "Content-Type", "Host"] {
+            let mut h = line(name, b"one");
+            h.extend(line(name, &full[10].1));
+            push(group, t, format!("{name}:dup"), h, None, false);
+        }
+        let mut h = line("Authorization", b"Bearer fuzz-admin-token");
+        h.extend(line("Authorization", b"Basic QTpC"));
+        push(group, t, "Authorization:dup-schemes".into(), h, None, false);
+        push(group, t, "Authorization:bearer-nonb64".into(), line("Authorization", b"Bearer ====/+/+===="), None, false);
+        push(group, t, "Authorization:basic-nonb64".into(), line("Authorization", b"Basic %%%%"), None, false);
+        push(group, t, "Authorization:basic-nocolon".into(), line("Authorization", b"Basic QUJD"), None, false);
+        push(group, t, "Authorization:basic-nonutf8".into(), line("Authorization", b"Basic /w=="), None, false);
+        // Content-Length games (the harness writes no Content-Length of its own here)
+        group += 1;
+        for (label, cl, body) in [
+            ("zero-with-body", &b"0"[..], &b"{\"a\":1}"[..]),
+            ("short", b"2", b"{\"added\":[],\"removed\":[]}"),
+            ("long", b"99999", b"{}"),
+            ("huge", b"18446744073709551616", b"{}"),
+            ("u64max", b"18446744073709551615", b"{}"),
+            ("neg", b"-1", b"{}"),
+            ("alpha", b"abc", b"{}"),
+            ("plus", b"+5", b"{}   "),
+            ("hex", b"0x10", b"{}"),
+            ("empty", b"", b"{}"),
+        ] {
+            push(group, t, format!("Content-Length:{label}"), line("Content-Length", cl), Some(body), true);
+        }
+        let mut h = line("Content-Length", b"2");
+        h.extend(line("Content-Length", b"5"));
+        push(group, t, "Content-Length:dup".into(), h, Some(b"{}   "), true);
+        let mut h = line("Transfer-Encoding", b"chunked");
+        h.extend(line("Content-Length", b"2"));
+        push(group, t, "Transfer-Encoding:chunked+cl".into(), h, Some(b"2\r\n{}\r\n0\r\n\r\n"), true);
+        push(group, t, "Transfer-Encoding:bad-chunk".into(), line("Transfer-Encoding", b"chunked"), Some(b"zz\r\n{}\r\n"), true);
+        push(group, t, "Transfer-Encoding:huge-chunk".into(), line("Transfer-Encoding", b"chunked"), Some(b"ffffffffffffffff\r\n{}"), true);
+    }
+    ops
+}
+
 struct FuzzOp {
     group: usize,
     line: String,
@@ -1986,14 +2190,39 @@ fn exec_fuzz(inst: &Instance, op: &str) -> (String, bool) {
     if let Ok(mut p) = PANICS.lock() {
         p.clear();
     }
-    let (status, _) = http(&inst.unix, method, path, Some(&inst.admin_hdr()), body.as_deref());
+    let (status, _) = match kv(&w, "hdr") {
+        Some(h) => {
+            // raw request: the header block is written byte for byte
+            let hdr = if h == "-" { Vec::new() } else { hex::decode(h).unwrap_or_default() };
+            let m = if method == "OTHER" { "PUT" } else { method };
+            let mut req = format!("{m} {path} HTTP/1.1\r\n").into_bytes();
+            let lower = String::from_utf8_lossy(&hdr).to_ascii_lowercase();
+            if !lower.contains("host:") {
+                req.extend_from_slice(b"Host: localhost\r\n");
+            }
+            req.extend_from_slice(b"Connection: close\r\n");
+            if !lower.contains("authorization:") {
+                req.extend_from_slice(&[b"Authorization: ", &inst.admin_hdr()[..], b"\r\n"].concat());
+            }
+            req.extend_from_slice(&hdr);
+            let b = kv(&w, "body").map(|b| if b == "-" { Vec::new() } else { hex::decode(b).unwrap_or_default() }).unwrap_or_default();
+            if kv(&w, "nocl").is_none() && (m == "POST" || !b.is_empty()) {
+                req.extend_from_slice(format!("Content-Length: {}\r\n", b.len()).as_bytes());
+            }
+            req.extend_from_slice(b"\r\n");
+            req.extend_from_slice(&b);
+            http_raw(&inst.unix, &req)
+        }
+        None => http(&inst.unix, method, path, Some(&inst.admin_hdr()), body.as_deref()),
+    };
     let alive = http(&inst.unix, "GET", "/health", None, None).0 == 200;
     let panics: Vec<String> = PANICS.lock().map(|p| p.clone()).unwrap_or_default();
     let mut line = format!("{op} => status={status} alive={}", alive as u8);
     if let Some(p) = panics.first() {
         line.push_str(&format!(" panic={p}"));
     }
-    (line, !panics.is_empty() || status == 0 || !alive)
+    // a hostile header may make the HTTP layer close the connection without an answer: that is fine
+    (line, !panics.is_empty() || (status == 0 && kv(&w, "hdr").is_none()) || !alive)
 }
 
 fn pathfuzz_cfg() -> CaseCfg {
@@ -2029,7 +2258,8 @@ fn main() {
         for l in cfg.lines() {
             writeln!(out, "{l}").unwrap();
         }
-        let ops = gen_pathfuzz(args.seed, &args.tier, &rows);
+        let mut ops = gen_pathfuzz(args.seed, &args.tier, &rows);
+        ops.extend(gen_headerfuzz(args.seed, &args.tier, &rows));
         let mut dead_groups: Vec<usize> = Vec::new();
         let mut n = 0;
         for op in &ops {
